@@ -16,7 +16,7 @@ use fn_graph::{DataAccessDyn, FnRef, TypeIds};
 
 use crate::spec::{Action, GateSpec, RunSpec, Step, N_TYPES};
 
-pub const MAX_RUNS: usize = 8;
+pub const MAX_RUNS: usize = 12;
 
 // ---------------------------------------------------------------------------
 // The function type stored in the graph.
